@@ -57,6 +57,10 @@ ASSUMPTIONS = suite.ENGINE_ASSUMPTIONS + [
     "the event of a live task equals the event of its in_progress row only when collect re-runs carry the invocation's own event "
     "(C01_running_same_event_partial; a step may pass any event to collect_events)",
     "cannot exhibit: a sync step whose executor thread outlives its cancelled task",
+    "between two commands the runner is observed at the boundaries of process_command (before the first, after each); what other tasks see during an await "
+    "inside one process_command is the table before or after that command (process_command changes the tables only in run_worker / cleanup_tasks, "
+    "pinned by GenWorkerSlots.pendingMutators / workerTaskMutators)",
+    "Runner.running stands for _pending_workers (coroutines not yet started) together with worker_tasks: a pending worker counts as started",
 ]
 
 
